@@ -212,7 +212,10 @@ class Check:
         hits = forbidden_scan()
         for h in hits:
             self.broken_ties.append("forbidden token in Lean sources: " + h)
-        ok, out = build.lean_build(["BlocV", "blocv"] + list(self.proof_modules))
+        # the driver and THIS property's proof modules (with what they import) — not the umbrella library: a proof obligation of
+        # another property that no longer checks (e.g. a generated table of C02 after a change to parse_expression.cpp) is that
+        # property's broken tie, not this one's
+        ok, out = build.lean_build(["blocv"] + list(self.proof_modules))
         if not ok:
             errs = [ln for ln in out.split("\n") if "error" in ln.lower()][:20]
             self.broken_ties.append("lake build failed: " + " | ".join(errs)[:1500])
